@@ -255,11 +255,11 @@ def LasCurves.getitem (L : LasCurves) (k : Key) : Except CvResult (List Cell) :=
 /-- `las.index` = `self.curves[0].data` -/
 def LasCurves.index (L : LasCurves) : Except CvResult (List Cell) := L.getitem (.int 0)
 
-/-- `las.data` = `np.vstack([c.data for c in curves]).T` as a list of rows; ValueError for no curves or unequal
-lengths -/
+/-- `las.data` = `np.vstack([c.data for c in curves]).T` as a list of rows (`np.empty((0, 0))` when there is no curve);
+ValueError for unequal lengths -/
 def LasCurves.dataView (L : LasCurves) : Except CvResult (List (List Cell)) :=
   match L.data with
-  | [] => .error .valueError
+  | [] => .ok []
   | d :: ds =>
     if ds.all (fun x => x.length == d.length) then
       .ok ((List.range d.length).map fun j => L.data.map (fun col => col.getD j []))
